@@ -27,6 +27,7 @@ def mc_config(name, consts, invariants, spec="MCSpec", props=None):
     lines = ["SPECIFICATION " + spec, "CONSTANTS", "  Caps <- MCCaps", "  Conns <- MCConns", "  Pieces <- MCPieces", "  Port <- MCPort"]
     consts = dict(consts)
     consts.setdefault("Crashes", "FALSE")
+    consts.setdefault("Restarts", "FALSE")
     for k, v in consts.items():
         lines.append("  %s = %s" % (k, v))
     if invariants:
